@@ -117,6 +117,18 @@ func (h *Handler) findOrCreate(clientID []byte, mac net.HardwareAddr, name strin
 	return lease
 }
 
+// taken reports whether ip is acknowledged to another client id or
+// tracked by the session for a MAC other than the lease's.
+func (h *Handler) taken(lease *Lease, ip netip.Addr) bool {
+	for _, v := range h.table {
+		if v != lease && v.State == StateAllocated && v.Addr.IP == ip {
+			return true
+		}
+	}
+	host := h.session.FindIP(ip)
+	return host != nil && !bytes.Equal(host.MACEntry.MAC, lease.Addr.MAC)
+}
+
 func (h *Handler) delete(lease *Lease) {
 	delete(h.table, string(lease.ClientID))
 }
